@@ -337,7 +337,7 @@ class C16(Prop):
     def gen_case(self, rng, k, tier):
         cfg = gen.GenCfg(n_ranks=rng.choice([1, 2, 2]), n_steps=rng.choice([0, 1, 2]), p_launch=rng.choice([0.5, 0.8]), p_mem=0.15, p_sync=0.0,
                          adv=(1, 1, 2, 3), max_depth=rng.choice([3, 5]), max_children=rng.choice([3, 4]), ops_per_step=(2, 4),
-                         kdelay=(1, 2, 3), kgap=(1, 2, 5), kdur=(1, 2, 3), base=rng.choice([0, 1000]), streams=rng.choice([(7,), (7, 9)]),
+                         kdelay=(1, 2, 3), kgap=(1, 2, 5), kdur=(1, 2, 3) if k % 3 else (0, 0, 1, 2), base=rng.choice([0, 1000]), streams=rng.choice([(7,), (7, 9)]),
                          pre_ops=2, post_ops=2, unlinked_head=rng.choice([0, 1, 2]), p_drop_launch=rng.choice([0.0, 0.15]),
                          p_unlisted_launch=rng.choice([0.0, 0.1]), n_extra_threads=rng.choice([0, 0, 1]), python_functions=rng.random() < 0.3,
                          p_launch_after_op=rng.choice([0.0, 0.3]))      # a worker thread: the same operator
